@@ -5,22 +5,26 @@ EXTENDS GridFrame, Json, TLC, TLCExt, IOUtils, SequencesExt
 
 MaxDim == atoi(IOEnv.MAXDIM)
 VARIABLES h, w
-Init == h \in 0 .. MaxDim /\ w \in 0 .. MaxDim
+(* scale-up frames (sides beyond 256): the same expectations, but only for coordinates near the corners *)
+BigDims == {<<257, 1>>, <<1, 300>>, <<2, 258>>, <<260, 0>>}
+Init == \E d \in ((0 .. MaxDim) \X (0 .. MaxDim)) \cup BigDims : h = d[1] /\ w = d[2]
 Next == UNCHANGED <<h, w>>
+Big == <<h, w>> \in BigDims
+Near(n, lo, hi) == IF Big THEN {k \in (lo .. lo + 3) \cup (n - 2 .. hi) : k >= lo /\ k <= hi} ELSE lo .. hi
 
-Consistent == LatticeConsistent(h, w) /\ CellDuality(h, w) /\ PointDuality(h, w)
+Consistent == Big \/ (LatticeConsistent(h, w) /\ CellDuality(h, w) /\ PointDuality(h, w))
 
 SetSeq(S) == SetToSeq(S)
 Rec ==
     [h |-> h, w |-> w,
      doubled |-> SetToSeq({[Y |-> Y, X |-> X, r |-> ByDoubled(h, w, Y, X)] :
-                            Y \in -2 .. 2 * h + 2, X \in -2 .. 2 * w + 2}),
+                            Y \in Near(2 * h, -2, 2 * h + 2), X \in Near(2 * w, -2, 2 * w + 2)}),
      cells   |-> SetToSeq({[y |-> y, x |-> x, err |-> ~CellOK(h, w, y, x),
                             segs |-> IF CellOK(h, w, y, x) THEN SetSeq(CellEdges(y, x)) ELSE <<>>] :
-                            y \in -1 .. h, x \in -1 .. w}),
+                            y \in Near(h, -1, h), x \in Near(w, -1, w)}),
      points  |-> SetToSeq({[y |-> y, x |-> x, err |-> ~PointOK(h, w, y, x),
                             segs |-> IF PointOK(h, w, y, x) THEN SetSeq(PointEdges(h, w, y, x)) ELSE <<>>] :
-                            y \in -1 .. h + 1, x \in -1 .. w + 1}),
+                            y \in Near(h, -1, h + 1), x \in Near(w, -1, w + 1)}),
      all_edges |-> AllEdgesSeq(h, w),
      lattice |-> LatticeSegs(h, w)]
 Export == PrintT(ToJson(Rec))
